@@ -1053,7 +1053,58 @@ var qvarFullRe = regexp.MustCompile(`[A-Za-z_][A-Za-z0-9_]*![q][0-9]+`)
 //	(declare-fun P!h (Int) Bool)   (forall v. P!h(v) = body)  with trigger P!h(v)
 //
 // so that quantified views  forall v :: P(a,v) <==> ...  have the natural triggers P!h(v).
+// predCallParam: every argument of the predicate is a PARAMETER of the named instance; the instance is keyed only by
+// the text of its body, i.e. by the versions of the heaps the body reads. `cmem(ra.containers[i], v)` after a store of c
+// into slot i and `cmem(c, v)` are then the same symbol applied to equal arguments (congruence), and a change of a heap
+// the body does not read (e.g. the slice that holds the container values) does not change the symbol.
+func (e *Exec) predCallParam(sf *SpecFunc, sfPkg *types.Package, args []TV, env *SpecEnv) (TV, bool) {
+	if env.cur.probe != nil {
+		return TV{}, false
+	}
+	n := &SpecEnv{vars: map[string]TV{}, oldVars: map[string]TV{}, cur: env.cur, old: env.old, pkg: sf.Pkg, tpkg: sfPkg, depth: env.depth + 1}
+	last := len(sf.Params) - 1
+	if sf.Prop {
+		last = -1
+	}
+	var sorts, binders, formals []string
+	var actuals []Term
+	for i, p := range sf.Params {
+		fname := fmt.Sprintf("a!p%d", i)
+		if i == last {
+			fname = "v!pred"
+		}
+		srt := args[i].T.Sort
+		n.vars[p.Name] = TV{Term{fname, srt}, args[i].Ty}
+		sorts = append(sorts, string(srt))
+		binders = append(binders, "("+fname+" "+string(srt)+")")
+		formals = append(formals, fname)
+		actuals = append(actuals, args[i].T)
+	}
+	body := e.tr(sf.Body, n)
+	if body.T.Sort != SBool {
+		return TV{}, false
+	}
+	canon := body.T.S
+	norm := map[string]string{}
+	canon = qvarFullRe.ReplaceAllStringFunc(canon, func(m string) string {
+		if r, ok := norm[m]; ok {
+			return r
+		}
+		r := fmt.Sprintf("%s!n%d", m[:strings.IndexByte(m, '!')], len(norm))
+		norm[m] = r
+		return r
+	})
+	name := e.predInstance(sf, canon, sorts, binders, formals, true, len(formals) > 0, 0)
+	if len(actuals) == 0 {
+		return TV{Term{name, SBool}, specBoolT}, true
+	}
+	return TV{mk(SBool, name, actuals...), specBoolT}, true
+}
+
 func (e *Exec) predCall(sf *SpecFunc, sfPkg *types.Package, args0 []TV, env *SpecEnv) (TV, bool) {
+	if os.Getenv("RVC_PREDPARAM") != "0" {
+		return e.predCallParam(sf, sfPkg, args0, env)
+	}
 	args := append([]TV(nil), args0...) // the caller falls back to inline expansion with its own arguments
 	n := &SpecEnv{vars: map[string]TV{}, oldVars: map[string]TV{}, cur: env.cur, old: env.old, pkg: sf.Pkg, tpkg: sfPkg, depth: env.depth + 1}
 	last := len(sf.Params) - 1
@@ -1172,6 +1223,30 @@ func (e *Exec) predCall(sf *SpecFunc, sfPkg *types.Package, args0 []TV, env *Spe
 	return TV{mk(SBool, name, actuals...), specBoolT}, true
 }
 
+// innerPredApps returns the applications "(P_name!hash args...)" of named predicate instances occurring in s.
+func innerPredApps(s string) []string {
+	var out []string
+	for _, loc := range predNameRe.FindAllStringIndex(s, -1) {
+		i := loc[0]
+		if i == 0 || s[i-1] != '(' {
+			continue
+		}
+		depth := 0
+		for j := i - 1; j < len(s); j++ {
+			if s[j] == '(' {
+				depth++
+			} else if s[j] == ')' {
+				depth--
+				if depth == 0 {
+					out = append(out, s[i-1:j+1])
+					break
+				}
+			}
+		}
+	}
+	return out
+}
+
 var mergedNameRe = regexp.MustCompile(`[A-Za-z_][A-Za-z0-9_.]*![0-9]+`)
 var predNameRe = regexp.MustCompile(`P_[A-Za-z0-9_]+![0-9a-f]{12}`)
 
@@ -1193,10 +1268,20 @@ func (e *Exec) predInstance(sf *SpecFunc, canon string, sorts, binders, formals 
 		app := "(" + name + " " + strings.Join(formals, " ") + ")"
 		pats := ":pattern (" + app + ")"
 		if bottomUp {
-			// bottom-up: a membership fact of an inner view (same element) also produces this view's atom
+			// bottom-up: a membership fact of an inner view (same element) also produces this view's atom; an inner
+			// application qualifies when it mentions every formal of this instance
 			seenP := map[string]bool{}
-			for _, m := range innerPredRe.FindAllString(canon, -1) {
-				if !seenP[m] && !strings.HasPrefix(m, "("+name+" ") {
+			for _, m := range innerPredApps(canon) {
+				if seenP[m] || strings.HasPrefix(m, "("+name+" ") {
+					continue
+				}
+				all := true
+				for _, f := range formals {
+					if !strings.Contains(m, f) {
+						all = false
+					}
+				}
+				if all && !strings.Contains(m, "!n") { // no variables bound inside the body
 					seenP[m] = true
 					pats += " :pattern (" + m + ")"
 				}
